@@ -163,7 +163,7 @@ def table_of(e):
     return None
 
 
-def r1_normalisation(chk, rule='C06.R1'):
+def r1_normalisation(chk, rule='C06.R1', only=None):
     model = chk.model
     chk.unit(INTER, SYMTAB)
     chk.doc(rule, 'a lookup key in _importMap / symbolTable[m] / _out / _rows / _symtable_rows / _symtable_cols is in '
@@ -176,6 +176,8 @@ def r1_normalisation(chk, rule='C06.R1'):
     for rel, cname in ((INTER, 'IntermediateCodeGen'), (SYMTAB, 'SymtableCodeGen')):
         ci = model.cls(rel, cname)
         for mname, fn in sorted(ci.methods.items()):
+            if only is not None and mname not in only:
+                continue
             norm_params = set()
             # clause positions holding lists normalised by genObjects
             for tag, c in clauses.items():
@@ -189,7 +191,7 @@ def r1_normalisation(chk, rule='C06.R1'):
                 chk.ob(rule, '%s.%s/%s<-%s' % (cname, mname, table, key.id), st != 'RAW', where(ci.mod, key),
                        'table %s is keyed by normalised names but is asked for `%s` as written in the MIB (%s): a '
                        'name with a hyphen is not found / attributed to the wrong module' % (table, key.id, text))
-    chk.floor(rule, 15, 'lookup sites')
+    chk.floor(rule, 15 if only is None else 2, 'lookup sites')
     # insertion side
     sci = model.cls(SYMTAB, 'SymtableCodeGen')
     o, sg = sci.find_method('genCode')
